@@ -238,8 +238,22 @@ def bytes_cases(fmt, tier, workers=None):
     return r.cases, r
 
 
-def bytes_lines(fmt, cases):
-    p = fmt[0].upper()
+TAIL_CONSTS = ("Firsts = {8, 9, 16, 64, 70}\nOffs = {8, 9, 16, 64}\n"
+               "Lens = {4, 5, 6, 7, 8, 9, 10, 11, 12, 13, 14, 15, 16, 17, 18, 19, 20}\nTails = %s")
+TAIL_PREFIX = {"snappy": "T", "lz4": "U"}
+
+
+def tail_cases(fmt, tier, workers=None):
+    """Blocks whose match/copy ends at or near the end of the output x exact / cutting capacities."""
+    if fmt == "snappy":
+        r = cl.tlc_gen("MC_SnappyTail", TAIL_CONSTS % "{0, 1, 3, 7}", what="MC_SnappyTail", workers=workers)
+    else:
+        r = cl.tlc_gen("MC_Lz4Tail", TAIL_CONSTS % "{99, 0, 1, 3, 7}", what="MC_Lz4Tail", workers=workers)
+    return r.cases, r
+
+
+def bytes_lines(fmt, cases, prefix=None):
+    p = prefix or fmt[0].upper()
     lines = []
     for i, c in enumerate(cases):
         s = bytes_rope(c["s"])
@@ -248,10 +262,10 @@ def bytes_lines(fmt, cases):
     return lines
 
 
-def refcheck_bytes(fmt, cases, res, faults):
+def refcheck_bytes(fmt, cases, res, faults, prefix=None):
     if faults:
         raise common.InfraError("reference %s crashed on a byte-string case: %s" % (fmt, faults[0].signature()))
-    p = fmt[0].upper()
+    p = prefix or fmt[0].upper()
     for i, c in enumerate(cases):
         for cap, j in c["j"].items():
             got = res.get("%s%d_%s" % (p, i, cap))
@@ -266,8 +280,8 @@ def refcheck_bytes(fmt, cases, res, faults):
                 raise common.InfraError("spec/%s disagreement: reference accepts %s (cap %s) the spec rejects (%s)" % (fmt, c["s"], cap, j["why"]))
 
 
-def judge_bytes(chk, fmt, cases, res, faults, leaky):
-    p = fmt[0].upper()
+def judge_bytes(chk, fmt, cases, res, faults, leaky, prefix=None, part="byte-strings", cls="bytes"):
+    p = prefix or fmt[0].upper()
     dec = fmt + "-dec"
     n = acc = rej = 0
     for i, c in enumerate(cases):
@@ -282,14 +296,14 @@ def judge_bytes(chk, fmt, cases, res, faults, leaky):
             if j["exp"] == "accept":
                 acc += 1
                 if not ok:
-                    chk.violation("%s:rejects-valid:bytes" % dec, "%s decompress rejects valid block %s (cap %s), spec output %s" % (
+                    chk.violation("%s:rejects-valid:%s" % (dec, cls), "%s decompress rejects valid block %s (cap %s), spec output %s" % (
                         fmt, bytes(c["s"]).hex(), cap, bytes(j["out"]).hex()), rep)
                 elif got[2] != common.hexs(j["out"]):
-                    chk.violation("%s:wrong-output:bytes" % dec, "%s decompress of %s (cap %s) gives %s, spec says %s" % (
+                    chk.violation("%s:wrong-output:%s" % (dec, cls), "%s decompress of %s (cap %s) gives %s, spec says %s" % (
                         fmt, bytes(c["s"]).hex(), cap, got[2], bytes(j["out"]).hex()), rep)
             elif j["exp"] == "lenient":
                 if ok and got[2] != common.hexs(j["out"]):
-                    chk.violation("%s:wrong-output:bytes" % dec, "%s decompress of %s (cap %s) gives %s, spec says %s" % (
+                    chk.violation("%s:wrong-output:%s" % (dec, cls), "%s decompress of %s (cap %s) gives %s, spec says %s" % (
                         fmt, bytes(c["s"]).hex(), cap, got[2], bytes(j["out"]).hex()), rep)
             elif j["exp"] == "reject":
                 rej += 1
@@ -309,7 +323,7 @@ def judge_bytes(chk, fmt, cases, res, faults, leaky):
                       {"fmt": fmt, "stream": stream, "cap": cap, "stderr": getattr(f, "stderr", "")[-1500:]})
     for cid in leaky:
         chk.violation("%s:leak" % dec, "leak after %s decompress case %s" % (fmt, cid), cid)
-    chk.part(fmt + "-byte-strings", executed=n, must_accept=acc, must_reject=rej, strings=len(cases), faults=len(faults))
+    chk.part(fmt + "-" + part, executed=n, must_accept=acc, must_reject=rej, strings=len(cases), faults=len(faults))
     chk.cov["traces_validated_against_impl"] += n
 
 
@@ -547,6 +561,8 @@ def run(chk, tier, replay):
         "gen-lz4": lambda: gen_cases("lz4", tier, workers=W),
         "bytes-snappy": lambda: bytes_cases("snappy", tier, workers=W),
         "bytes-lz4": lambda: bytes_cases("lz4", tier, workers=W),
+        "tail-snappy": lambda: tail_cases("snappy", tier, workers=W),
+        "tail-lz4": lambda: tail_cases("lz4", tier, workers=W),
         "descs": lambda: dir2_descs(tier, workers=W),
         "big": lambda: big_descs(tier, workers=W),
         "pagecodec": lambda: pagecodec_cases(tier, workers=W)})
@@ -558,7 +574,9 @@ def run(chk, tier, replay):
         for r in gen["gen-" + fmt][1]:
             chk.add_tlc(r)
         chk.add_tlc(gen["bytes-" + fmt][1])
+        chk.add_tlc(gen["tail-" + fmt][1])
         lines += dir1_lines(fmt, gen["gen-" + fmt][0]) + bytes_lines(fmt, gen["bytes-" + fmt][0])
+        lines += bytes_lines(fmt, gen["tail-" + fmt][0], prefix=TAIL_PREFIX[fmt])
     descs = gen["descs"][0] + gen["big"][0]
     chk.add_tlc(gen["descs"][1])
     chk.add_tlc(gen["big"][1])
@@ -578,11 +596,16 @@ def run(chk, tier, replay):
         p = fmt[0]
         refcheck_dir1(fmt, gen["gen-" + fmt][0], rres, [f for f in rfaults if f.case_id[0] == p])
         refcheck_bytes(fmt, gen["bytes-" + fmt][0], rres, [f for f in rfaults if f.case_id[0] == p.upper()])
+        tp = TAIL_PREFIX[fmt]
+        refcheck_bytes(fmt, gen["tail-" + fmt][0], rres, [f for f in rfaults if f.case_id[0] == tp], prefix=tp)
     for fmt in ("snappy", "lz4"):
         p = fmt[0]
         judge_dir1(chk, fmt, gen["gen-" + fmt][0], res, [f for f in faults if f.case_id[0] == p], [c for c in leaky if c[0] == p])
         judge_bytes(chk, fmt, gen["bytes-" + fmt][0], res, [f for f in faults if f.case_id[0] == p.upper()],
                     [c for c in leaky if c[0] == p.upper()])
+        tp = TAIL_PREFIX[fmt]
+        judge_bytes(chk, fmt, gen["tail-" + fmt][0], res, [f for f in faults if f.case_id[0] == tp], [c for c in leaky if c[0] == tp],
+                    prefix=tp, part="match-at-end", cls="match-at-end")
     judge_pagecodec(chk, pcases, rres, res)
     # 3. carquet's compressors, validated by TLC
     dir2(chk, descs, rres, rfaults, res, faults, leaky)
